@@ -64,18 +64,43 @@ func newOf(typ string) interface{} {
 
 func run(typ string, val interface{}, class string) *obs {
 	o := &obs{typ: typ, val: val, class: class}
-	o.data, o.merr = xml.Marshal(val)
+	func() {
+		defer func() {
+			if r := recover(); r != nil {
+				o.merr = fmt.Errorf("panic: %v", r)
+				o.class = "panic"
+			}
+		}()
+		o.data, o.merr = xml.Marshal(val)
+	}()
 	if o.merr != nil {
 		return o
 	}
 	o.v2 = newOf(typ)
-	o.uerr = xml.Unmarshal(o.data, o.v2)
-	sc := osmxml.New(context.Background(), bytes.NewReader(o.data))
-	for sc.Scan() {
-		o.scanned = append(o.scanned, sc.Object())
-	}
-	o.serr = sc.Err()
-	sc.Close()
+	// a panic inside the implementation is an observation, not a harness crash
+	func() {
+		defer func() {
+			if r := recover(); r != nil {
+				o.uerr = fmt.Errorf("panic: %v", r)
+				o.class = "panic"
+			}
+		}()
+		o.uerr = xml.Unmarshal(o.data, o.v2)
+	}()
+	func() {
+		defer func() {
+			if r := recover(); r != nil {
+				o.serr = fmt.Errorf("panic: %v", r)
+				o.class = "panic"
+			}
+		}()
+		sc := osmxml.New(context.Background(), bytes.NewReader(o.data))
+		for sc.Scan() {
+			o.scanned = append(o.scanned, sc.Object())
+		}
+		o.serr = sc.Err()
+		sc.Close()
+	}()
 	return o
 }
 
@@ -253,6 +278,16 @@ func corpus() []*obs {
 		{Type: osm.ActionModify, Old: &osm.OSM{Bounds: b(1, 2, 3, 4), Ways: osm.Ways{w1}}, New: &osm.OSM{Ways: osm.Ways{w1}}},
 		{Type: osm.ActionDelete, Old: &osm.OSM{Relations: osm.Relations{r1}}, New: &osm.OSM{Relations: osm.Relations{r1}}},
 	}}, "corpus-diff"))
+	for _, id := range []int64{-1, 0, 1 << 40, 1 << 44, 1 << 45, 9223372036854775807} {
+		out = append(out, run("Diff", &osm.Diff{Actions: osm.Actions{
+			{Type: osm.ActionCreate, OSM: &osm.OSM{Nodes: osm.Nodes{{ID: osm.NodeID(id), Visible: true}}}},
+			{Type: osm.ActionCreate, OSM: &osm.OSM{Ways: osm.Ways{{ID: osm.WayID(id)}}}},
+			{Type: osm.ActionCreate, OSM: &osm.OSM{Relations: osm.Relations{{ID: osm.RelationID(id)}}}},
+			{Type: osm.ActionModify, Old: &osm.OSM{Nodes: osm.Nodes{{ID: osm.NodeID(id)}}}, New: &osm.OSM{Nodes: osm.Nodes{{ID: osm.NodeID(id), Version: 2}}}},
+		}}, "corpus-diff-id-range"))
+		out = append(out, run("Change", &osm.Change{Create: &osm.OSM{Nodes: osm.Nodes{{ID: osm.NodeID(id)}}, Ways: osm.Ways{{ID: osm.WayID(id)}}},
+			Delete: &osm.OSM{Relations: osm.Relations{{ID: osm.RelationID(id)}}}}, "corpus-change-id-range"))
+	}
 	out = append(out, run("Bounds", b(1, 2, 3, 4), "corpus-bounds"))
 	out = append(out, run("Way", w1, "corpus-way"))
 	out = append(out, run("Relation", r1, "corpus-relation"))
